@@ -52,14 +52,14 @@ for col in ["client", "left_clock", "right_clock", "info", "parent_info", "type_
         "2 reads", "DecoderV2 %s column reader" % col, timeout=900)
     c10("t2_col_%s_short" % col, "T2", "well-framed v2 buffer, column under test = every byte string "
         "of length 0..3, 2-3 reads", "DecoderV2 %s column reader (truncation)" % col,
-        tier="thorough", required=False, timeout=1500)
+        tier="thorough", required=False, timeout=1200)
 c10("t2_col_client_full9", "T2", "client column = every 9-byte string, 1 read", "DecoderV2::read_client, values above 53 bits")
 c10("t2_col_left_id_client9", "T2", "client column = every 9-byte string, left-clock column [2], 1 read",
     "DecoderV2::read_left_id, client values above 53 bits")
 c10("t2_col_range_full", "T2", "rest buffer = every 10-byte string", "Range<u32>::decode over DecoderV2")
 for n in ["client_k8", "left_clock_k8", "info_k8", "len_k8", "string_k8", "ds_k10"]:
     c10("t2_col_" + n, "T2", "column under test = every byte string of length 0..8 (10), 3-4 reads",
-        tier="thorough", required=False, mem=24, timeout=2400)
+        tier="thorough", required=False, mem=24, timeout=1200)
 
 c10("t3_range_v1", "T3", "every byte string <= 6", "Range<u32>::decode v1")
 for c in (0, 1, 2):
@@ -68,7 +68,7 @@ for c in (0, 1, 2):
 c10("t3_id_range_count_v1", "T3", "every byte string <= 6, path cut at the first pushed element",
     "IdRange::decode: reservation made from the count field")
 c10("t3_id_set_v1", "T3", "1 client (id < 128), 1 range, every clock/len byte, every prefix length",
-    "IdSet::decode_v1 (BTreeMap insert of one key)", tier="thorough", required=False, timeout=2400, mem=24)
+    "IdSet::decode_v1 (BTreeMap insert of one key)", tier="thorough", required=False, timeout=1200, mem=24)
 
 for n, b in [("gc", "GC"), ("skip", "Skip"), ("deleted", "Deleted, parent info"),
              ("deleted_o", "Deleted + origin"), ("deleted_r", "Deleted + right origin"),
@@ -84,9 +84,9 @@ for n in ["deleted", "binary", "string", "embed", "format", "unknown", "json_0",
     c10("t4_content_" + n, "T4", "content kind concrete, every payload <= 2..6 bytes, every prefix length",
         "ItemContent::decode v1 (%s)" % n)
 c10("t4_content_type_weak", "T4", "weak-link type ref, every 6-byte payload, every prefix length",
-    tier="thorough", required=False, timeout=2400, mem=24)
+    tier="thorough", required=False, timeout=1200, mem=24)
 c10("t4_content_any_bool_int", "T4", "Any content [bool, int(2 bytes)]", tier="thorough",
-    required=False, timeout=2400, mem=24)
+    required=False, timeout=1200, mem=24)
 
 for n in ["undefined", "null", "int", "f32", "f64", "bigint", "false", "true", "string", "buffer",
           "tag_0", "tag_115", "tag_128", "tag_255"]:
@@ -99,7 +99,7 @@ c10("t5_any_map_hdr", "T5", "tag 118 + every 6-byte string; path cut at the fall
 c10("t5_any_array_bool_null", "T5", "array [bool, null]", "Any::decode array of payload-free scalars")
 for n in ["f64_int", "bigint_string"]:
     c10("t5_any_array_" + n, "T5", "array of two payload-carrying scalars", tier="thorough",
-        required=False, timeout=2400, mem=24)
+        required=False, timeout=1200, mem=24)
 
 for n in ["relative", "root", "nested", "bad_tag"]:
     c10("t6_sticky_" + n, "T6", "scope tag concrete, every payload <= 2..5 bytes, every prefix length",
@@ -168,23 +168,21 @@ def a2(name, bound, desc, tier, required, timeout=900):
 # measured (wall / peak RSS) on this sandbox; quick = required set
 a1("a1_insert_p0", "empty pre-state; " + U, "IdRanges<()>::insert", Q, True)                 # 8 s
 a1("a1_insert_p1", "any canonical 1-entry list; " + U, "IdRanges<()>::insert", TH, True, 2400)  # 490 s, 12 GB
-a1("a1_insert_p2", "any canonical 2-entry list; " + U, "IdRanges<()>::insert", TH, False, 2400)  # 516 s, 21 GB
-a1("a1_insert_p3", "any canonical 3-entry list; " + U, "IdRanges<()>::insert", TH, False, 2400)  # > 24 GB
+a1("a1_insert_p2", "any canonical 2-entry list; " + U, "IdRanges<()>::insert", TH, False, 1200)  # 516 s, 21 GB
 a1("a1_remove_p1", "any canonical 1-entry list; " + U, "IdRanges<()>::remove", Q, True)       # 9 s
 a1("a1_remove_p2", "any canonical 2-entry list; " + U, "IdRanges<()>::remove", Q, True)       # 115 s
 a1("a1_remove_p3", "any canonical 3-entry list; " + U, "IdRanges<()>::remove", TH, True, 2400)  # 560 s
 a1("a1_exclude_p1_q1", "canonical lists 1 x 1; " + U, "IdRanges<()>::exclude", Q, True)       # 70 s, 3.7 GB
 a1("a1_exclude_p1_q2", "canonical lists 1 x 2; " + U, "IdRanges<()>::exclude", TH, True, 2400)  # 157 s, 6 GB
-a1("a1_exclude_p2_q1", "canonical lists 2 x 1; " + U, "IdRanges<()>::exclude", TH, False, 2400)  # > 24 GB
-a1("a1_exclude_p2_q2", "canonical lists 2 x 2; " + U, "IdRanges<()>::exclude", TH, False, 2400)
+a1("a1_exclude_p2_q1", "canonical lists 2 x 1; " + U, "IdRanges<()>::exclude", TH, False, 900)  # > 24 GB when measured
 a1("a1_intersect_p1_q1", "canonical lists 1 x 1; " + U, "IdRanges<()>::intersect", Q, True)   # 153 s, 9.5 GB
 a1("a1_intersect_p1_q2", "canonical lists 1 x 2; " + U, "IdRanges<()>::intersect", TH, True, 2400)  # 282 s, 16 GB
-a1("a1_intersect_p2_q1", "canonical lists 2 x 1; " + U, "IdRanges<()>::intersect", TH, False, 2400)
-a1("a1_intersect_p2_q2", "canonical lists 2 x 2; " + U, "IdRanges<()>::intersect", TH, False, 2400)
-for (p_, q_) in ((1, 1), (2, 1), (1, 2), (2, 2)):
-    # T = (): > 24 GB in every shape measured; the same generic function is decided with T = Mask (A2)
+a1("a1_intersect_p2_q1", "canonical lists 2 x 1; " + U, "IdRanges<()>::intersect", TH, False, 900)  # > 24 GB when measured
+for (p_, q_) in ((1, 1),):
+    # T = (): > 24 GB in every shape measured (1x1, 2x1, 1x2, 2x2); the same generic function is decided with
+    # T = Mask (A2); one instance is kept as best effort
     a1("a1_merge_p%d_q%d" % (p_, q_), "canonical lists %d x %d; %s" % (p_, q_, U), "IdRanges<()>::merge",
-       TH, False, 2400)
+       TH, False, 900)
 for (p_, q_) in ((1, 1), (2, 2), (3, 2)):
     a1("a1_queries_p%d_q%d" % (p_, q_), "canonical lists %d x %d; %s" % (p_, q_, U),
        "subset_of, contains_clock, find_start, clock_start/end, len, is_empty", Q, True)      # 7-13 s
@@ -202,10 +200,10 @@ a2("a2_exclude_p2_q1", V + "2 x 1; " + U, "IdRanges<M>::exclude", Q, True)      
 a2("a2_intersect_p1_q1", V + "1 x 1; " + U, "IdRanges<M>::intersect", Q, True)                 # 41 s
 a2("a2_intersect_p2_q1", V + "2 x 1; " + U, "IdRanges<M>::intersect", Q, True)                 # 87 s
 a2("a2_intersect_p1_q2", V + "1 x 2; " + U, "IdRanges<M>::intersect", Q, True)                 # 84 s
-for n in ("insert_remove", "merge", "diff", "intersect", "order_independent"):
-    # BTreeMap lifting: no instance finished within 40 minutes (DESIGN 2.4); kept as best effort
+for n in ("insert_remove",):
+    # BTreeMap lifting: none of the five harnesses finished within 40 minutes (DESIGN 2.4); one kept as best effort
     c16("a3_idset_" + n, "A3", "IdSet over concrete client ids {1,2,3}, one symbolic range per client",
-        "IdSet lifting (BTreeMap): " + n, tier="thorough", required=False, timeout=2400)
+        "IdSet lifting (BTreeMap): " + n, tier="thorough", required=False, timeout=900)
 
 STUBS += [
     "C16: SmallVec::new / with_capacity -> the same empty vector, heap-backed with spare capacity 4; "
@@ -315,7 +313,23 @@ for n, sh, c in [("deleted_sh3", 3, "Deleted(5)"), ("string_sh0", 0, "String wit
     c09("r5_slice_" + n, "R5", R5B % (sh, c), "Block::as_slice + BlockSlice::encode (the path of "
         "encode_state_as_update / encode_diff for every block) vs block-format model", kani_args=FS)
 
+c09("r3_ds_stream", "R3", "rest buffer = every 6-byte string; two (clock, len) pairs vs the delete-set stream format",
+    "DecoderV2::read_ds_clock / read_ds_len vs model", timeout=900)
+c09("r6_id_range_encode", "R6", "two disjoint symbolic ranges; recording Encoder", "IdRange / Range<u32> encode vs format")
+for n in ("relative", "nested", "root"):
+    c09("r7_sticky_encode_" + n, "R7", "scope kind concrete, id and assoc symbolic; recording Encoder",
+        "StickyIndex / IndexScope / Assoc encode vs format")
+for n in ("auth_granted", "auth_denied", "query", "custom", "sync_step2", "sync_update"):
+    c09("r8_msg_" + n, "R8", "message variant concrete, tag (4..255) and payload bytes symbolic; recording Encoder",
+        "sync::protocol::Message / SyncMessage encode vs format")
+c09("r9_any_number_encode", "R9", "every f64 bit pattern; recording Encoder",
+    "Any::Number encoding selection (var-int / f32 / f64) vs the lib0 rule")
+c09("r9_any_f32_decode", "R9", "tag 124 + every 4-byte payload", "Any::decode f32 vs primitive reader")
+c09("r9_any_f64_decode", "R9", "tag 123 + every 8-byte payload", "Any::decode f64 vs primitive reader")
+
 ASSUMPTIONS["C09"] = [
+    "R6/R7/R8 decide the *encoder* halves of delete-set ranges, sticky indexes and sync messages against their "
+    "formats (encoder calls through a recording Encoder); their decoder halves are covered for totality only (C10)",
     "R5 decides the *encoder* half of the block format: Item::encode and the untrimmed BlockSlice::encode make "
     "exactly the encoder calls of the reference model (v1 and v2 at once, through a recording Encoder). That "
     "these calls are read back as the same item by Update::decode_block is validated natively on 128 concrete "
